@@ -103,6 +103,9 @@ def generate(seed, tier):
                 ops.append(["pickle", o, rw.randrange(0, 6)]); nobj += 1
         elif r < 0.82:
             ops.append(["df", o])
+        elif r < 0.845:
+            # the whole grid, shifted by a few ppm (another record whose clock is slightly off), or a scaled copy of it
+            ops.append(["meas_grid", o, rw.choice(interp), rw.choice([2e-6, -2e-6, 1e-7, -3e-9, 1e-3, 0.0]), rw.random() < 0.3])
         elif r < 0.94:
             q = []
             for _ in range(rw.choice([1, 1, 2, 5])):
@@ -269,6 +272,10 @@ def execute(sc, out):
                 df = o.to_dataframe()
                 _check_df(df, o, truth, nf, iscsd, out)
                 out.count("export_single_bin" if single else ("export_uniform_K" if uniform_k else "export_ragged"))
+                if single or uniform_k:
+                    out.nontrivial = True
+            elif kind == "meas_grid":
+                _check_meas_grid(o, op, truth, nf, out)
                 if single or uniform_k:
                     out.nontrivial = True
             elif kind == "meas":
@@ -487,6 +494,47 @@ def _check_df(df, o, truth, nf, iscsd, out):
         if isinstance(v, np.ndarray) and v.dtype != object and v.shape == (nf,) and name not in ("f", "G", "compute_t"):
             if name not in df.columns:
                 out.violate("dataframe", name, "per-bin array missing from the DataFrame export")
+
+
+def _lin_interp(f, tab, fq):
+    """Piecewise-linear interpolation with clamping, written out independently (real and imaginary parts alike)."""
+    res = np.empty(len(fq), dtype=np.result_type(tab.dtype, np.float64))
+    for i, q in enumerate(fq):
+        if q <= f[0]:
+            res[i] = tab[0]
+        elif q >= f[-1]:
+            res[i] = tab[-1]
+        else:
+            j = int(np.searchsorted(f, q, side="right")) - 1
+            t = (q - f[j]) / (f[j + 1] - f[j])
+            res[i] = tab[j] + t * (tab[j + 1] - tab[j])
+    return res
+
+
+def _check_meas_grid(o, op, truth, nf, out):
+    _, oi, which, delta, reverse = op
+    tab = truth.get(which)
+    if tab is RAISED or tab is None:
+        return
+    f = truth["f"]
+    tab = np.asarray(tab)
+    if nf >= 2 and not np.all(np.diff(f) > 0):
+        return
+    if not np.all(np.isfinite(tab.real)) or (np.iscomplexobj(tab) and not np.all(np.isfinite(tab.imag))):
+        return
+    fq = np.array(f, dtype=np.float64) * (1.0 + delta)
+    if reverse:
+        fq = fq[::-1].copy()
+    exp = _lin_interp(f, tab, fq)
+    got = np.asarray(o.get_measurement(fq, which))
+    out.count("interp_full_grid_shifted" if delta else "interp_full_grid_exact")
+    if got.shape != exp.shape:
+        out.violate("interpolation", f"{which}:fullgrid", f"query of the whole grid ({nf} frequencies) returned shape {got.shape}")
+        return
+    scale = float(np.max(np.abs(tab))) if tab.size else 0.0
+    err = float(np.max(np.abs(got - exp))) if exp.size else 0.0
+    if not err <= 1e-9 * scale + 1e-300:
+        out.violate("interpolation", f"{which}:fullgrid", f"grid scaled by 1{delta:+g}: get_measurement deviates from linear interpolation by {err:.3e} (scale {scale:.3e})")
 
 
 def _check_meas(o, op, truth, nf, out):
